@@ -20,6 +20,7 @@ import contextlib
 import io
 import itertools
 import json
+import os
 from fractions import Fraction
 
 import numpy as np
@@ -1878,6 +1879,102 @@ def run_ops(ctx, drv, ops_iter, record, setter_rng=None):
     return w, done
 
 
+# ---------------------------------------------------------------------------------------
+# argument forms in front of `from_shape` (Model/VectorFront.lean): the type tests of validate_shape / validate_fields /
+# validate_num_fields / validate_vector_units and the places where num_fields is only compared
+
+def _front_py(j, what):
+    """the Python object for an argument-form request"""
+    if j is None:
+        return None
+    if what == "shape":
+        if "tuple" in j:
+            return tuple(_front_py(d, "dim") for d in j["tuple"])
+        return {"list": [2, 3], "int": 3, "none": None, "nparray": np.array([2, 3])}[j["not_tuple"]]
+    if what in ("dim", "num"):
+        if "i" in j:
+            return int(j["i"])
+        if "b" in j:
+            return bool(j["b"])
+        if "like" in j:
+            return float(j["like"]) if j.get("as") == "float" else np.int64(j["like"])
+        return {"float": 2.0, "np": np.int64(2), "str": "2", "none": None}[j["o"]]
+    if "seq" in j:
+        return tuple(j["seq"]) if j.get("as") == "tuple" else list(j["seq"])
+    return {"str": "xy", "set": {"x", "y"}, "dict": {"x": 1, "y": 2}}[j["not_seq"]]
+
+
+def front_cases():
+    T = lambda *ds: {"tuple": list(ds)}   # noqa: E731
+    I = lambda n: {"i": n}                # noqa: E731
+    shapes = [T(I(2)), T(I(2), I(3)), T({"b": True}, I(2)), T(I(2), {"b": False}), T(I(2), I(0), {"o": "float"}),
+              T({"o": "float"}, I(0)), T({"o": "np"}, I(3)), T({"o": "str"}), T(), {"not_tuple": "list"}, {"not_tuple": "int"},
+              {"not_tuple": "none"}, {"not_tuple": "nparray"}, T(I(-1)), T(I(2), {"o": "none"}), T(I(3), I(1), I(2), I(2))]
+    nums = [None, I(2), I(0), I(-1), {"b": True}, {"b": False}, {"like": 2, "as": "float"}, {"like": 2, "as": "np"}, {"o": "str"}, I(3),
+            {"like": 1, "as": "np"}]
+    fields = [None, {"seq": ["x", "y"], "as": "list"}, {"seq": ["x", "y"], "as": "tuple"}, {"seq": ["x", "x"], "as": "list"},
+              {"not_seq": "str"}, {"not_seq": "set"}, {"seq": [], "as": "list"}, {"seq": ["x"], "as": "list"}]
+    units = [None, {"seq": ["m", "s"], "as": "list"}, {"seq": ["m", "s"], "as": "tuple"}, {"not_seq": "str"}, {"seq": ["m"], "as": "list"},
+             {"not_seq": "dict"}]
+    out = []
+    for sh in shapes:
+        for nf, fs in ((None, fields[1]), (I(2), None), (I(2), fields[2]), (None, None)):
+            out.append({"shape": sh, "num_fields": nf, "fields": fs, "units": None})
+    for nf in nums:
+        for fs in fields:
+            out.append({"shape": shapes[0], "num_fields": nf, "fields": fs, "units": None})
+    for un in units:
+        for nf, fs in ((None, fields[1]), (I(2), None), (I(2), fields[3]), ({"o": "str"}, None), (None, fields[4])):
+            out.append({"shape": shapes[1], "num_fields": nf, "fields": fs, "units": un})
+    # the first offending argument decides: bad shape + bad fields + bad units at once
+    out.append({"shape": {"not_tuple": "list"}, "num_fields": {"o": "str"}, "fields": {"not_seq": "str"}, "units": {"not_seq": "str"}})
+    out.append({"shape": T(I(2), I(0)), "num_fields": None, "fields": {"not_seq": "set"}, "units": {"not_seq": "str"}})
+    return out
+
+
+def check_front_case(ctx, drv, req):
+    Vector = _vector_cls()
+    case = {"front": req}
+    ctx.count()
+    try:
+        with contextlib.redirect_stdout(io.StringIO()):
+            v = Vector.from_shape(shape=_front_py(req["shape"], "shape"), num_fields=_front_py(req["num_fields"], "num"),
+                                  fields=_front_py(req["fields"], "seq"), units=_front_py(req["units"], "seq"))
+        res = {"ok": {"vec": 0}}
+    except Exception as e:  # noqa
+        v, res = None, {"err": err_name(e)}
+    ctx.dist["front:" + res.get("err", "ok")] += 1
+    ctx.mark(("front", json.dumps(req, sort_keys=True)))
+    if v is not None:
+        # the property on the real object: creation from shape gives unique fields, one unit per field, positive integer
+        # dimensions and one (unset) cell per index
+        try:
+            cells = flat_cells(v)
+            okp = (len(set(v.fields)) == len(v.fields) and len(v.units) == len(v.fields) and all(isinstance(d, int) and d > 0 for d in v.shape)
+                   and len(cells) == int(np.prod([int(d) for d in v.shape])) and all(c is None for c in cells))
+            seen = {"shape": [int(d) for d in v.shape], "fields": list(v.fields), "units": list(v.units)}
+        except Exception as e:  # noqa
+            okp, seen = False, f"{type(e).__name__}: {e}"
+        if not okp:
+            ctx.pred_fail("front-structure:from_shape", "from_shape accepted the arguments but the new vector is not well-formed", case,
+                          observed=seen, required="unique fields, one unit per field, positive int dims, one unset cell per index")
+    if drv is None:
+        return
+    drv.ask({"op": "reset"})
+    m = drv.ask(dict(req, op="from_shape_front"))
+    if "r" not in m:
+        raise RuntimeError(f"driver error {m} on {req}")
+    if m["r"] != res:
+        ctx.disagree("vector-front", case, m["r"], res, note="outcome of from_shape on argument forms")
+        return
+    if v is not None:
+        mv = m["obs"]["vecs"][-1]
+        mine = {"shape": mv["shape"], "fields": mv["fields"], "units": mv["units"], "cells": len(mv["cells"])}
+        impl = {"shape": [int(d) for d in v.shape], "fields": list(v.fields), "units": list(v.units), "cells": len(flat_cells(v))}
+        if mine != impl:
+            ctx.disagree("vector-front", case, mine, impl, note="vector made by from_shape on argument forms")
+
+
 # public signatures of the anchored API (name, kind, default) — pinned: a changed default (`metadata={}` was a real
 # defect of this class) or a dropped / renamed public parameter is a broken tie, not a silent change
 SIGNATURES = {
@@ -1929,12 +2026,16 @@ def run(ctx):
     check_signatures(ctx)
     drv = Driver("C11")
     try:
+        for req in front_cases():
+            check_front_case(ctx, drv, req)
         # FIXED histories (independent of VERIF_SEED): see c11_fixed.py
         for name, ops in c11_fixed.fixed_histories():
             w, done = run_ops(ctx, drv, c11_fixed.script_iter(ops), record=False)
             ctx.dist[f"fixed-history:{name}:ops-executed"] += sum(1 for o in done if o["op"] != "alloc")
             ctx.dist["fixed-histories"] += 1
         nseq = min(ctx.n(1000, 10000), 25000)      # the 10x failing-input search is capped (time budget)
+        if os.environ.get("C11_ONLY_FIXED"):       # development aid: judge the fixed block alone
+            nseq = 0
         maxops = 40 if ctx.thorough() else 20
         for sidx in range(nseq):
             rng = ctx.rng.fork(sidx)
@@ -1960,6 +2061,9 @@ def replay(ctx, rep):
         return False
     drv = Driver("C11")
     try:
+        if "front" in case:
+            check_front_case(ctx, drv, case["front"])
+            return True
         run_ops(ctx, drv, lambda w: iter(case["ops"]), record=False)
     finally:
         drv.close()
